@@ -87,6 +87,11 @@ impl SpanId {
                 let (prefix, mut suffix) = g.get();
 
                 suffix = suffix.wrapping_add(1);
+                if suffix == 0 {
+                    // Skip the zero counter: with a zero prefix it would yield `SpanId(0)`,
+                    // which means "no parent" everywhere else.
+                    suffix = 1;
+                }
 
                 g.set((prefix, suffix));
 
